@@ -10,6 +10,7 @@ class KPath:
     def __init__(self):
         self.written = {}  # (kind, key) -> value expr (ast) ; kind 'd' dataset / 'a' attribute
         self.required = {}  # (kind, key) -> target expr text or None
+        self.all_targets = {}  # (kind, key) -> every target the key is read into on this path
         self.optional = set()
         self.present = set()  # keys asserted present by a guard on this path
         self.absent = set()
@@ -24,6 +25,7 @@ class KPath:
         p = KPath()
         p.written = dict(self.written)
         p.required = dict(self.required)
+        p.all_targets = {k: list(v) for k, v in self.all_targets.items()}
         p.optional = set(self.optional)
         p.present = set(self.present)
         p.absent = set(self.absent)
@@ -186,6 +188,8 @@ class Extractor:
                     q = p.copy()
                     q.written.update(sp.written)
                     q.required.update(sp.required)
+                    for k_, v_ in sp.all_targets.items():
+                        q.all_targets.setdefault(k_, []).extend(v_)
                     q.optional |= sp.optional
                     q.present |= sp.present
                     q.absent |= sp.absent
@@ -301,6 +305,8 @@ class Extractor:
         if key in p.present:
             p.optional.add(key)
         p.required.setdefault(key, target)
+        if target is not None:
+            p.all_targets.setdefault(key, []).append(target)
 
 
 def disc_by_attr(p):
